@@ -1050,6 +1050,7 @@ pub const PROBE_BUILD: u32 = 1;
 pub const PROBE_EXPAND: u32 = 2;
 pub const PROBE_ESTIMATE: u32 = 3;
 pub const PROBE_DONE: u32 = 4;
+pub const PROBE_SEARCH_END: u32 = 5;
 
 // ---------------------------------------------------------------------------
 // hooks called from the interposed libc symbols
